@@ -80,9 +80,64 @@ def cond_is(cond, left, op, lit):
     return False
 
 
+def dup_order(P, res):
+    """DUP-ORDER: an arm of eval_expr that pops operands and pushes (clones of) them back must push them in the order they
+    lay on the stack -- the reverse of the pop order, repeated: `assert(a < b)` duplicates both operands, and pushing
+    one pair swapped makes the comparison run as `b < a`."""
+    f = P.require_fn("eval::eval_expr")
+
+    def popped(op):
+        """the pop_value call block an operand derives from (through expect/unwrap/clone), or None."""
+        r = f.root_of(op, through_named=True)
+        for _ in range(6):
+            if r[0] != "call":
+                return None
+            n = M.callee_name(r[2]) or ""
+            if n == "env::Env::pop_value":
+                return r[1]
+            if n.endswith(("::expect", "::unwrap", "::clone", "Rc::<T>::clone")) and r[2]["args"]:
+                r = f.root_of(r[2]["args"][0], through_named=True)
+                continue
+            return None
+        return None
+    pushes = []
+    for bi, t in f.calls():
+        if M.callee_name(t) == "env::Env::push_value" and len(t["args"]) > 1:
+            src = popped(t["args"][1])
+            if src is not None:
+                pushes.append((bi, src))
+    groups = {}
+    for bi, src in pushes:
+        arm = D.arm_label(f, bi, enums={"Expression_", "ExpressionState"})
+        groups.setdefault(arm, []).append((bi, src))
+    n = 0
+    for arm, ps in sorted(groups.items()):
+        pops = sorted({src for _, src in ps}, key=lambda b: f.rpo.index(b))
+        if len(pops) < 2:
+            continue
+        n += 1
+        ps.sort(key=lambda x: f.rpo.index(x[0]))
+        chain = all(f.dominates(a[0], b[0]) for a, b in zip(ps, ps[1:])) and all(f.dominates(a, b) for a, b in zip(pops, pops[1:]))
+        key = "eval::eval_expr # %s # re-push order" % arm
+        if not chain:
+            res.ok("DUP-ORDER", key + ": pushes on different paths (not a straight-line duplication)")
+            continue
+        want = list(reversed(pops))
+        seq = [src for _, src in ps]
+        okseq = len(seq) % len(want) == 0 and all(seq[i] == want[i % len(want)] for i in range(len(seq)))
+        if okseq:
+            res.ok("DUP-ORDER", key + ": %d popped operands pushed back %d time(s) in stack order" % (len(pops), len(seq) // len(want)))
+        else:
+            names = {b: "pop#%d" % (i + 1) for i, b in enumerate(pops)}
+            res.bad("DUP-ORDER", key, "the %s arm pops %d operands and pushes them back as [%s]; stack order would be [%s] repeated: the operator applied next sees its "
+                    "operands exchanged" % (arm, len(pops), ", ".join(names[x] for x in seq), ", ".join(names[x] for x in want)), f.loc(f.blocks[ps[0][0]]["term"].get("span")))
+    res.floor("DUP-ORDER", "arms of eval_expr that pop several operands and push them back", n, 1)
+
+
 def run(ctx, res):
     P = ctx.P
     sh = ctx.shape
+    dup_order(P, res)
     # ---- INT-ARITH (MIR)
     table = json.load(open(os.path.join(VERIF, "tables", "c04_int_residue.json")))["rows"]
     reach = P.reachable(["eval::eval"], rta=False)
